@@ -50,6 +50,12 @@ func AcquireDirLock(dir string, fs vfs.FS) (*DirLock, error) {
 		}
 		return nil, err
 	}
+	// Release unlinks LOCK while it still holds the flock. If the path no longer
+	// names the file we just locked, that file was released and unlinked between
+	// our open and our flock: locking it excludes nobody.
+	if same, err := sameFileAsPath(fs, f, lockPath); err != nil || !same {
+		return nil, fmt.Errorf("dirlock: directory %q already in use", dir)
+	}
 	if err := f.Truncate(0); err == nil {
 		pid := os.Getpid()
 		host := ""
@@ -69,20 +75,39 @@ func (l *DirLock) Release() error {
 		return nil
 	}
 	var firstErr error
+	// Unlink first, while the flock is still held: nobody can lock this file
+	// before it has lost its name, so every later contender either creates a
+	// fresh LOCK file or fails the path re-check in AcquireDirLock.
+	fs := vfs.Ensure(l.fs)
+	if err := fs.Remove(l.path); err != nil && !errors.Is(err, os.ErrNotExist) {
+		firstErr = err
+	}
 	if fd, ok := vfs.FileFD(l.file); ok {
-		if err := syscall.Flock(int(fd), syscall.LOCK_UN); err != nil {
+		if err := syscall.Flock(int(fd), syscall.LOCK_UN); err != nil && firstErr == nil {
 			firstErr = err
 		}
-	} else {
+	} else if firstErr == nil {
 		firstErr = fmt.Errorf("dirlock: file %q does not expose descriptor", l.path)
 	}
 	if err := l.file.Close(); err != nil && firstErr == nil {
 		firstErr = err
 	}
-	fs := vfs.Ensure(l.fs)
-	if err := fs.Remove(l.path); err != nil && !errors.Is(err, os.ErrNotExist) && firstErr == nil {
-		firstErr = err
-	}
 	l.file = nil
 	return firstErr
+}
+
+// sameFileAsPath reports whether the open file f is the file that path names now.
+func sameFileAsPath(fs vfs.FS, f vfs.File, path string) (bool, error) {
+	fi, err := f.Stat()
+	if err != nil {
+		return false, err
+	}
+	pi, err := fs.Stat(path)
+	if err != nil {
+		if errors.Is(err, os.ErrNotExist) {
+			return false, nil
+		}
+		return false, err
+	}
+	return os.SameFile(fi, pi), nil
 }
